@@ -59,6 +59,31 @@ func (r *Run) callVF(caller *frame, pos token.Pos, fn *ssa.Function, args []Valu
 		label := strArg(args[0])
 		n := r.concInt(args[1], "vf.BytesN n")
 		return r.symBytes(label, int(n))
+	case "Dur":
+		// duration built from symbolic (s, ms, ns): d = s*1e9 + ms*1e6 + ns with 0 <= s <= maxS,
+		// 0 <= ms < 1000, 0 <= ns < 1e6. Division / remainder of d by 1e9 and 1e6 are answered from the
+		// components (side lemma discharged in integer arithmetic), so that no 64-bit division by
+		// 10^6 / 10^9 is bit-blasted.
+		label := strArg(args[0])
+		maxS := r.concInt(args[1], "vf.Dur maxSeconds")
+		if maxS < 0 || maxS > 1<<32 {
+			panic(unsupported("vf.Dur: bad maxSeconds"))
+		}
+		if !r.m.krLemma(maxS) {
+			r.inconclusive = append(r.inconclusive, "vf.Dur side lemma not discharged")
+		}
+		sec := r.newInput(label+".s", "i64", bvSort(64))
+		ms := r.newInput(label+".ms", "i64", bvSort(64))
+		ns := r.newInput(label+".ns", "i64", bvSort(64))
+		r.assume(tAnd(tBVCmp("bvsge", sec, mkBV(64, 0)), tBVCmp("bvsle", sec, mkBV(64, uint64(maxS)))))
+		r.assume(tAnd(tBVCmp("bvsge", ms, mkBV(64, 0)), tBVCmp("bvslt", ms, mkBV(64, 1000))))
+		r.assume(tAnd(tBVCmp("bvsge", ns, mkBV(64, 0)), tBVCmp("bvslt", ns, mkBV(64, 1000000))))
+		sub := tBVBin("bvadd", tBVBin("bvmul", ms, mkBV(64, 1000000)), ns) // d % 1e9
+		d := tBVBin("bvadd", tBVBin("bvmul", sec, mkBV(64, 1000000000)), sub)
+		r.kr[d] = krInfo{div: map[int64]*Term{1000000000: sec, 1000000: tBVBin("bvadd", tBVBin("bvmul", sec, mkBV(64, 1000)), ms)},
+			rem: map[int64]*Term{1000000000: sub, 1000000: ns}}
+		r.kr[sub] = krInfo{div: map[int64]*Term{1000000: ms, 1000000000: mkBV(64, 0)}, rem: map[int64]*Term{1000000: ns, 1000000000: sub}}
+		return d
 	case "Defined":
 		pkg := r.m.prog.ImportedPackage(strArg(args[0]))
 		if pkg == nil {
